@@ -129,6 +129,13 @@ theorem reweight_wf (f : Str → Str → Int → Int) (t : Table) (h : WFTable t
     exact h.2 a' ha'
   · simp [translationMap, mapWeights, List.flatMap_map, Function.comp_def]
 
+/-- re-weighting keeps every entry's letter and number of synonyms (so the "at most 8 synonyms" of the default
+tables, C07 `default_synonyms_le_8`, carries over to every re-weighted table) -/
+theorem reweight_synonyms (f : Str → Str → Int → Int) (t : Table) :
+    (mapWeights f t).aminoAcids.map (fun a => (a.letter, a.codons.length)) =
+      t.aminoAcids.map (fun a => (a.letter, a.codons.length)) := by
+  simp [mapWeights, List.map_map, Function.comp_def]
+
 /-! ### Part 2: every table, every string -/
 
 /-- the translation is the concatenation, in order, of the residues of the complete in-frame codons -/
